@@ -347,7 +347,8 @@ def run(cx: Cx):
     check_deprecated_aliases_forward(cx, DW)
     from .common import include_premises
     include_premises(cx, ['C10'], 'ids reported by the neighbourhood queries are cell ids: same strides as the cell table',
-                     only=lambda o: 'id-strides' in o.key or 'id form' in o.message or (o.rule == 'R-GUARD' and 'loop' in o.message))
+                     only=lambda o: 'id-strides' in o.key or 'id form' in o.message or (o.rule == 'R-GUARD' and 'loop' in o.message)
+                     or (o.rule == 'R-FWD' and '_get_cell_pos_as_tuple' in ((o.function or '') + o.message + o.key)))
     include_premises(cx, ['C11'], "the row looked up carries the cell's component values only if every cell component stores each cell's "
                      "own value under that cell's id")
     from .common import check_no_stateful_memo
